@@ -2236,6 +2236,8 @@ func (a *Association) handleInitAck(pkt *packet, initChunkAck *chunkInitAck) err
 	a.peerInterleaving = false
 	a.peerForwardTSN = false
 	a.peerIForwardTSN = false
+	// only this INIT ACK decides (an INIT handled while waiting for it may have set it)
+	a.sendZeroChecksum = false
 
 	var cookieParam *paramStateCookie
 	for _, param := range initChunkAck.params {
